@@ -757,6 +757,7 @@ static void do_get(const Op* o) {
   } else {
     int64_t kv = keyval(c->kind, c->kt, o->a[1]);
     int mi = map_find(c, kv);
+    if (mi < 0 && g_transcript) return;        /* in-contract programs only */
     var volatile ex = NULL; var volatile got = NULL;
     try { got = get(c->obj, MKVAL(c->kt, kv)); } catch (e) { ex = e; }
     if (mi >= 0) {
@@ -788,6 +789,7 @@ static void do_rem(const Op* o) {
     int mi = map_find(c, kv);
     /* bias towards present keys */
     if (mi < 0 && c->n && (o->a[1] & 1)) { mi = (int)(((o->a[1] / 2 % c->n) + c->n) % c->n); kv = c->k[mi]; }
+    if (mi < 0 && g_transcript) return;        /* in-contract programs only */
     var volatile ex = NULL;
     if (mi >= 0 && c->kind == K_TREE) tree_classify_rem(c, kv);
     try { rem(c->obj, MKVAL(c->kt, kv)); } catch (e) { ex = e; }
@@ -975,9 +977,6 @@ static void do_assign(const Op* o) {
 
 static void do_copy(const Op* o) {
   Cont* s = pick(o->a[0]); if (!s) return;
-#ifdef CELLO_NGC
-  return;
-#endif
   Cont* d = free_slot(); if (!d) return;
   progress(g_opidx, "C05", "copy");
   g_lastop = "copy";
@@ -986,9 +985,13 @@ static void do_copy(const Op* o) {
   if (!sb[d - C]) sb[d - C] = harness_alloc(SBUF);
   d->s = sb[d - C]; d->s[0] = 0;
   d->kind = s->kind; d->kt = s->kt; d->vt = s->vt;
+#ifdef CELLO_NGC
+  d->managed = 0;
+#else
   d->managed = 1;
+#endif
   d->obj = copy(s->obj);
-  g_roots[d - C] = d->obj;
+  root_set(d);
   d->live = 1;
   adopt_model(d, s);
   stat_add("copy", 1);
